@@ -2,11 +2,14 @@
 """
 Exporter of the PDB spellings of the 230 space-group symbols (property C17).
 
-  lean/XfabVerif/Gen/PdbSymbols.lean    `CifPdb.pdbSymbolTable : List (String × String)` = (PDB spelling, sglib class),
-                                        the same as character lists with evaluation certificates (`pdbSymbolCerts`) and `xfab.sg.sgdic` with its keys as
-                                        character lists (`sgdicL`) and as lists of code points (`sgdicN`); the copies exist only
-                                        because the Lean kernel evaluates character lists / numbers much faster than strings — C17.pdb_symbol_tables proves them equal to
-                                        `pdbSymbolTable` and to `Sg.sgdic` (exported by gen_tables.py)
+  lean/XfabVerif/Gen/PdbSymbols.lean
+      `CifPdb.pdbSymbolTable : List (String × String)`   (PDB spelling, sglib class) for the 230 groups
+      `CifPdb.pdbSymbolCerts`   the same spellings as character lists, each with two untrusted evaluation certificates
+                                (code points of the lower-cased concatenation of all tokens / of the tokens other than '1')
+      `CifPdb.sgdicL`, `CifPdb.sgdicN`   `xfab.sg.sgdic` with its keys as character lists / lists of code points
+  The copies exist only because the Lean kernel evaluates characters and numbers much faster than strings;
+  C17.pdb_symbol_tables proves them equal to `pdbSymbolTable` and to `Sg.sgdic` (exported by gen_tables.py), and
+  C17.pdb_symbol checks every certificate in the kernel.
 
 How a PDB spelling is built (CRYST1 columns 56-66 carry the full Hermann-Mauguin symbol: lattice letter and
 axis symbols separated by blanks, '1' place-holders for the axes without symmetry; wwPDB format 3.3, CRYST1):
